@@ -132,6 +132,14 @@ def build_model(g, cls=None):
     cb = gamma_callable(*g["gamma"])
     if cb is not None:
         kw["gamma"] = cb
+    if RETUNE_EVERY and game_hash(g) % RETUNE_EVERY == 2:
+        # a running system being re-tuned: the model is constructed with OTHER settings and its public attributes are then assigned
+        # the game's values.  Every setting is read from the attribute at call time; nothing may be derived from it at construction.
+        CALL_STATS["models_retuned_in_place"] = CALL_STATS.get("models_retuned_in_place", 0) + 1
+        kw0 = dict(kw, beta=kw["beta"] * 3.0 + 1.0, kappa=min(1.0, kw["kappa"] * 7.0), tau=kw["tau"] * 2.0 + 0.125, limit_sigma=not kw["limit_sigma"])
+        m = cls(**kw0)
+        m.beta, m.kappa, m.tau, m.limit_sigma = kw["beta"], kw["kappa"], kw["tau"], kw["limit_sigma"]
+        return m
     return cls(**kw)
 
 
@@ -159,6 +167,8 @@ def game_hash(g):
 
 
 REENTRANT_EVERY = int(os.environ.get("VERIF_REENTRANT_EVERY", "6"))
+RETUNE_EVERY = int(os.environ.get("VERIF_RETUNE_EVERY", "5"))
+HISTORY_EVERY = int(os.environ.get("VERIF_HISTORY_EVERY", "3"))
 REENTRANT_STATS = {"calls": 0}
 CALL_STATS = {"positional": 0, "selector_reused": 0}
 INTERLEAVE_FAILURES = []      # drained by the runner: (text, game)
@@ -173,12 +183,19 @@ def nested_game(g):
     return teams, ranks
 
 
-def call_rate(model, teams, g, reentrant=None):
+SEL_OBJECT = {}
+
+
+def call_rate(model, teams, g, reentrant=None, history=None):
+    if history is None:
+        history = HISTORY_EVERY > 0 and game_hash(g) % HISTORY_EVERY == 1 and not g.get("_no_history")
+    if history:
+        history_prelude(model, teams, g, game_hash(g))
     kw = {}
     if g["oc"][0] == "R":
-        kw["ranks"] = list(g["oc"][1])
+        kw["ranks"] = SEL_OBJECT.pop(id(g), None) or list(g["oc"][1])
     elif g["oc"][0] == "S":
-        kw["scores"] = list(g["oc"][1])
+        kw["scores"] = SEL_OBJECT.pop(id(g), None) or list(g["oc"][1])
     if g["tauopt"] is not None:
         kw["tau"] = g["tauopt"]
     if g["lsopt"] is not None:
@@ -322,6 +339,111 @@ def run_impl_rate(g, cls=None):
     for t in res:
         out.append([(slot.get(p.name, -1), p.mu, p.sigma) for p in t])
     return ("OK", out)
+
+
+class _Abort(Exception):
+    """raised by the harness's own gamma callback to make a rate() call fail half-way"""
+
+
+def history_prelude(model, teams, g, h):
+    """What happened on this model and on these rating objects BEFORE the call under test must not matter (C13: a rejected call has no
+    side effect; C14: no state is kept between calls).  One of four histories, chosen by the game's hash:
+      0  a call rejected by validation (wrong-length / wrong-type ranks or scores, both selectors, a single team) that carries per-call
+         tau / limit_sigma different from the model's — on the same model and the same rating objects;
+      1  a call that fails half-way because the gamma callback raises at its k-th invocation (per-call options given); the application
+         rolls the players back by assigning the prior values to the public attributes, then retries;
+      2  a valid call on OTHER rating objects that shares the caller's ranks/scores list object, whose contents are then edited in
+         place (a re-used buffer);
+      3  a valid unrelated game with other team count and options on the same model;
+      4  the SAME rating objects played an earlier game while they held other values (last season: lower sigma, shifted mu; limit_sigma
+         on), and were then assigned this game's prior values.
+    After every history the rating objects hold exactly the prior values again; the result of the call under test is compared with the
+    model as usual, so any trace a history leaves shows up as an ordinary mismatch."""
+    mode = (h // 3) % 5
+    prior = [[(p.mu, p.sigma) for p in t] for t in teams]
+    n = len(teams)
+
+    def restore(check, what):
+        for t, pt in zip(teams, prior):
+            for p, (m, s_) in zip(t, pt):
+                if check and (p.mu != m or p.sigma != s_) and not (p.mu != p.mu):
+                    INTERLEAVE_FAILURES.append(("%s left a rating modified: (%r, %r) -> (%r, %r)" % (what, m, s_, p.mu, p.sigma), g))
+                    check = False
+                p.mu, p.sigma = m, s_
+    CALL_STATS["history_mode_%d" % mode] = CALL_STATS.get("history_mode_%d" % mode, 0) + 1
+    other_tau = g["tau"] * 3.0 + g["beta"] / 5.0 if (h // 12) % 2 else 0.0
+    opts = dict(tau=other_tau, limit_sigma=not (g["ls"] if g["lsopt"] is None else g["lsopt"]))
+    if mode == 0:
+        bad = [dict(ranks=list(range(n + 1))), dict(ranks=list(range(n - 1)) + ["x"]), dict(scores=[21] + ["abc"] + [23] * (n - 2)),
+               dict(scores=[float(i) for i in range(n)] + [1.0]), dict(ranks=list(range(n)), scores=list(range(n))),
+               dict(ranks=[None] * n), dict(scores=[1.5] * (n - 1) + [[2]])][(h // 48) % 7]
+        for kw in (dict(bad, **opts), bad):
+            try:
+                model.rate(teams, **kw)
+                INTERLEAVE_FAILURES.append(("a malformed rate() call (%r) was not rejected" % sorted(kw), g))
+            except (TypeError, ValueError):
+                pass
+            except Exception as e:  # noqa: BLE001
+                INTERLEAVE_FAILURES.append(("a malformed rate() call raised %s instead of TypeError/ValueError" % type(e).__name__, g))
+            restore(True, "a rate() call rejected by validation")
+        try:
+            model.rate(teams[:1], **opts)
+        except (TypeError, ValueError):
+            pass
+        except Exception as e:  # noqa: BLE001
+            INTERLEAVE_FAILURES.append(("rate() on a single team raised %s instead of TypeError/ValueError" % type(e).__name__, g))
+        restore(True, "a rate() call rejected by validation")
+    elif mode == 1:
+        orig = model.gamma
+        st = {"n": 0, "at": 1 + (h // 48) % (2 * n)}
+
+        def cb(c, k, mu, s2, team, rank):
+            st["n"] += 1
+            if st["n"] >= st["at"]:
+                raise _Abort()
+            return orig(c, k, mu, s2, team, rank)
+        model.gamma = cb
+        try:
+            kw = dict(opts)
+            if g["oc"][0] == "R":
+                kw["ranks"] = list(g["oc"][1])
+            elif g["oc"][0] == "S":
+                kw["scores"] = list(g["oc"][1])
+            model.rate(teams, **kw)
+        except _Abort:
+            pass
+        except Exception:  # noqa: BLE001   (the call under test will meet the same condition and report it)
+            pass
+        finally:
+            model.gamma = orig
+        restore(False, "")
+    elif mode == 2 and g["oc"][0] in "RS":
+        keep = list(g["oc"][1])
+        if len(set(map(repr, keep))) > 1:
+            key = "ranks" if g["oc"][0] == "R" else "scores"
+            sel = keep[::-1] if keep[::-1] != keep else keep[1:] + keep[:1]     # the caller's buffer, first holding another outcome
+            try:
+                model.rate(build_teams(model, g), **{key: sel})
+            except Exception:  # noqa: BLE001
+                pass
+            sel[:] = keep                                                       # ... then overwritten in place with this game's outcome
+            SEL_OBJECT[id(g)] = sel                                             # and passed, the same list object, to the call under test
+    elif mode == 4:
+        for t in teams:
+            for p in t:
+                p.mu, p.sigma = p.mu * 0.75 + g["beta"], p.sigma * 0.5 + 1e-3 * g["beta"]
+        try:
+            model.rate(teams, ranks=[(i * 3 + 1) % n for i in range(n)], limit_sigma=True, tau=g["beta"] / 4)
+        except Exception:  # noqa: BLE001
+            pass
+        restore(False, "")
+    else:
+        try:
+            k2 = 2 if n != 2 else 3
+            others = [[model.rating(mu=g["beta"] * (4 + i), sigma=g["beta"] * (1.5 + 0.25 * i))] for i in range(k2)]
+            model.rate(others, ranks=[(i * 2) % k2 for i in range(k2)], **opts)
+        except Exception:  # noqa: BLE001
+            pass
 
 
 def parse_rate_out(line):
